@@ -10,7 +10,7 @@ From Deep Require Import Base Config Collector CollectorProofs.
 Theorem C06_offending_value_has_entry :
   forall c h fuel fifo cs name o v x,
   In (v, x) (table (run fuel fifo c h (init cs [] name o))) ->
-  v_ty x = o_ty (hget h (v_oid x)) /\ v_val x = firstn (max_str c) (o_text (hget h (v_oid x))).
+  v_ty x = o_ty (hget h (v_oid x)) /\ v_val x = firstn (max_str c) (otext (hget h (v_oid x))).
 Proof.
   intros c h fuel fifo cs name o v x I.
   destruct (run_table_ok c h fuel fifo (init cs [] name o)) with (v := v) (x := x) as (A & B & _);
